@@ -242,7 +242,12 @@ impl Property for C20 {
             vec![]
         };
         let mut cfg = resolve(&sc.opts);
-        if let (Mode::Replace(r), true) = (&cfg.mode, rng.chance(1, 6)) {
+        // now and then a line that cannot be passed at all arrives behind ordinary lines (see
+        // below); half of the time it is -s that it breaks
+        let occ_r: usize = sc.cmd[1..].iter().map(|a| a.matches(r.as_str()).count()).sum();
+        let unpassable = matches!(cfg.mode, Mode::Replace(_)) && occ_r >= 1 && nlines >= 1 && near_strlen.is_none() && rng.chance(1, 10);
+        let unpassable_by_s = unpassable && rng.chance(4, 5);
+        if let (Mode::Replace(r), true) = (&cfg.mode, unpassable_by_s || rng.chance(1, 6)) {
             // -s that every line just fits: both the line next to the unsubstituted command
             // and the command line after substitution stay within it, by 0..5 bytes
             let spec = tokenize(&cfg, &input);
@@ -257,7 +262,30 @@ impl Property for C20 {
             sc.opts.insert(at, Opt::S(need + *rng.pick(&[0usize, 0, 1, 2, 5])));
             cfg = resolve(&sc.opts);
         }
+        if unpassable {
+            // a line that fits neither next to the command nor after substitution (or is longer
+            // than the kernel takes as one argument), behind at least one complete line: the
+            // lines before it have had their runs, then the run ends with xargs' own error
+            let len = match sc.opts.iter().find_map(|o| if let Opt::S(s) = o { Some(*s) } else { None }) {
+                Some(s) => s + rng.small(1, 20),
+                None => crate::xargs::MAX_ARG_STRLEN + *rng.pick(&[0usize, 1, 5]),
+            };
+            let mut input = sc.input.0.clone();
+            if input.last().is_some_and(|b| *b != sep) {
+                input.push(sep);
+            }
+            input.extend(std::iter::repeat(b'Z').take(len));
+            if rng.chance(2, 3) {
+                input.push(sep);
+                if rng.chance(1, 2) {
+                    input.extend_from_slice(b"t");
+                    input.push(sep);
+                }
+            }
+            sc.input = B(input);
+        }
         sc.note = match cfg.mode {
+            Mode::Replace(_) if unpassable => "replace-mode unpassable-line".into(),
             Mode::Replace(_) => "replace-mode".into(),
             Mode::Batch => "batch-mode-wins".into(),
         };
@@ -330,6 +358,9 @@ impl Property for C20 {
                 }
                 if sc.opts.iter().any(|o| matches!(o, Opt::S(_))) {
                     rep.probe("replace_mode_with_max_chars_that_just_fits");
+                }
+                if exp.own_error == Some("argument-too-large") {
+                    rep.probe(if exp.spawns.is_empty() { "replace_mode_unpassable_line_first" } else { "replace_mode_unpassable_line_behind_ordinary_lines" });
                 }
                 if sc.opts.iter().any(|o| matches!(o, Opt::Null | Opt::Delim(_))) {
                     rep.probe("replace_mode_with_an_explicit_delimiter");
